@@ -199,6 +199,53 @@ def run(prog, chk):
             chk.bad("C19.d", f, "parent-creation-order", "%s:%s" % (f.file, f.line), "Directory::create must create the missing parent before mkdir(dir) and return false when that fails")
     else:
         chk.bad("C19.d", f, "parent-creation-missing", "%s:%s" % (f.file, f.line), "Directory::create no longer creates missing parents")
+    # ------------------------------------------------------------------ f: prefix tests on component boundaries
+    chk.rule("C19.f", "typestate: in getRelativePath every `to starts with prefix` comparison is made while the prefix ends in a separator "
+                      "(component boundary), so a sibling whose name merely extends the last component is not taken for a descendant", floor=2)
+    f = ffn(prog, "File::getRelativePath", "File.cpp")
+    cmps = []
+    for c in q.calls(f):
+        if f.nodes[c].get("callee") != "String::compare":
+            continue
+        a = q.call_args(f, c)
+        if len(a) < 3:
+            continue
+        m = re.match(r"^(\w+)\.length\(\)$", q.no_casts(f.r(a[2])))
+        if m:
+            cmps.append((c, m.group(1)))
+    if not cmps:
+        chk.bad("C19.f", f, "no-prefix-comparison", "%s:%s" % (f.file, f.line), "getRelativePath no longer compares the simplified target against a prefix of the simplified source")
+    for c, var in cmps:
+        def tr(st, e, var=var):
+            if not isinstance(e, int):
+                return st
+            n = f.nodes[e]
+            if n["k"] in ("CXXMemberCallExpr", "CXXOperatorCallExpr"):
+                o = q.call_object(f, e) if n["k"] == "CXXMemberCallExpr" else (f.strip(n["c"][1]) if len(n["c"]) > 1 else None)
+                if o is None or q.no_casts(f.r(o)) != var:
+                    return st
+                short = n.get("callee", "").split("::")[-1]
+                args = q.call_args(f, e) if n["k"] == "CXXMemberCallExpr" else n["c"][2:]
+                if short == "append" and args and fin.eval_expr(f, args[0], {}) == 47:
+                    return "sep"
+                if short == "resize" and args:
+                    t = q.no_casts(q.xr(f, args[0]))
+                    # resize((newEnd - start) + 1) with newEnd = findLast('/') keeps the separator
+                    if re.search(r"findLast\('/'\)", t) and t.endswith("+ 1)"):
+                        return "sep"
+                    return "nosep"
+                if short in ("operator=", "clear", "prepend", "replace", "operator+=", "printf") or (short == "append"):
+                    return "nosep"
+            return st
+        sin, sat = q.forward(f, "nosep", tr, None, lambda a, b: a if a == b else "nosep")
+        st = sat.get(f.node_pos(c))
+        # only comparisons whose success leads to a return matter
+        if st == "sep":
+            chk.ok("C19.f", f, "prefix comparison at line %s with `%s` ending in '/'" % (f.nodes[c]["l"], var), f.where(c), "typestate dataflow over append('/') / resize", evals=2)
+        else:
+            chk.bad("C19.f", f, "prefix-test-off-component-boundary", f.where(c),
+                    "`%s` is compared as a prefix of the target while it does not end in a separator: \"/r/lib\" is accepted as a prefix of \"/r/lib64/x\" "
+                    "and the relative path then denotes a different file" % var)
     # ------------------------------------------------------------------ e (notes)
     fc = ffn(prog, "File::copy", "File.cpp")
     early = [r for r in rets(fc, 0) if callsn(fc, "open") and q.reaches(fc, callsn(fc, "open")[0], r) and
